@@ -134,8 +134,9 @@ def with_level(v, l):
 
 
 class Problem:
-    def __init__(self, rule, func, node, why, construct=None):
+    def __init__(self, rule, func, node, why, construct=None, undecided=False):
         self.rule, self.func, self.node, self.why, self.construct = rule, func, node, why, construct
+        self.undecided = undecided  # the abstract domain cannot relate this code to the nodes it handles (no verdict)
 
 
 class Obl:
@@ -197,13 +198,13 @@ class IterFlow:
             self.pre = new
         return self
 
-    def problem(self, rule, func, node, why, construct=None):
+    def problem(self, rule, func, node, why, construct=None, undecided=False):
         cons = construct or " ".join(norm(node).split())
         k = (rule, func.where, cons)
         if k in self._problem_keys:
             return
         self._problem_keys.add(k)
-        self.problems.append(Problem(rule, func, node, why, cons))
+        self.problems.append(Problem(rule, func, node, why, cons, undecided))
 
     def ok(self, rule, func, node, what):
         self.obligations.append(Obl(rule, func, node, what))
@@ -281,26 +282,30 @@ class IterFlow:
     def join_states(self, a, b, node, is_back):
         enva, fa = a
         envb, fb = b
-        # constant-difference widening at loop heads
+        # constant-difference widening at loop heads: the integer counters define the per-iteration shift d;
+        # every level that shifts by d (or is still empty) becomes symbol+constant, a level that is unchanged
+        # stays, anything else (e.g. a dead variable carried over from the previous iteration) loses its level alone
         if is_back:
-            deltas = set()
+            int_d, seq_d = set(), set()
             for k in enva:
                 if k in envb:
                     for la, lb in zip(levels_of(enva[k]), levels_of(envb[k])):
-                        d = self._delta(la, lb)
-                        if d is None:
-                            deltas.add("bad")
-                        elif d != 0:
-                            deltas.add(d)
-            if len(deltas) == 1 and "bad" not in deltas:
-                d = next(iter(deltas))
+                        dlt = self._delta(la, lb)
+                        if dlt not in (0, None) and la is not None and lb is not None:
+                            (int_d if isinstance(enva[k], tuple) else seq_d).add(dlt)
+            d = None
+            if len(int_d) == 1:
+                d = next(iter(int_d))
+            elif not int_d and len(seq_d) == 1:
+                d = next(iter(seq_d))
+            if d is not None:
                 sym = "σ%d" % node.id
                 if sym not in self.symref:
                     ref = None
-                    for k in sorted(enva):
+                    for k in sorted(enva, key=lambda x: (not isinstance(enva[x], tuple), x)):
                         if k in envb:
                             for la, lb in zip(levels_of(enva[k]), levels_of(envb[k])):
-                                if self._delta(la, lb) not in (0, None) and ref is None and la is not None and la != "TOP" and la[0] == "c":
+                                if self._delta(la, lb) == d and ref is None and la is not None and la != "TOP" and la[0] == "c":
                                     ref = la
                     if ref is not None:
                         self.symref[sym] = ref[1]
@@ -316,6 +321,9 @@ class IterFlow:
                         if las and lbs:
                             la, lb = las[0], lbs[0]
                             dd = self._delta(la, lb)
+                            if dd == 0 and la is not None and lb is not None:
+                                env[k] = vjoin(va, vb)
+                                continue
                             shifting = dd == d or (dd == 0 and (la is None or lb is None))
                             if shifting and (la is not None or lb is not None):
                                 src = la if la is not None else lv_add(lb, -d)
@@ -326,6 +334,9 @@ class IterFlow:
                                 else:
                                     newl = "TOP"
                                 env[k] = vjoin(with_level(va, newl), with_level(vb, newl))
+                                continue
+                            if la is not None and lb is not None:
+                                env[k] = vjoin(with_level(va, "TOP"), with_level(vb, "TOP"))
                                 continue
                         env[k] = vjoin(va, vb)
                     return (env, self.facts_join(fa, fb))
@@ -466,9 +477,13 @@ class IterFlow:
                     return (env, facts | {("abort" if o else "noabort", g)})
                 if rec and mv != MAXNONE:
                     self.problem("S3", f, c, "the depth guard `%s` does not compare a tracked level with this iterator's maxlevel: "
-                                 "the level bookkeeping cannot be related to the nodes it guards" % norm(c))
+                                 "the level bookkeeping cannot be related to the nodes it guards" % norm(c), undecided=True)
                 return (env, facts)
             fv = self.ev(f, c.func, env, facts, False, n) if isinstance(c.func, ast.Name) else None
+            if fv == ("fn", "stop") and len(c.args) == 1 and not isinstance(c.args[0], ast.Name):
+                return (env, facts | {("stopped" if o else "stopfalse", norm(c.args[0]))})
+            if fv == ("fn", "filter_") and len(c.args) == 1 and not isinstance(c.args[0], ast.Name):
+                return (env, facts | {("filter", norm(c.args[0]), o)})
             if fv == ("fn", "stop") and len(c.args) == 1 and isinstance(c.args[0], ast.Name):
                 x = c.args[0].id
                 v = env.get(x)
@@ -551,6 +566,12 @@ class IterFlow:
         return TOPV
 
     def ev(self, f, e, env, facts, rec, cn):
+        v = self._ev(f, e, env, facts, rec, cn)
+        if isinstance(v, Node) and not v.checked and not isinstance(e, ast.Name) and ("stopfalse", norm(e)) in facts:
+            v = Node(v.level, True, v.admitted, v.rec)
+        return v
+
+    def _ev(self, f, e, env, facts, rec, cn):
         if isinstance(e, ast.Constant):
             if isinstance(e.value, bool):
                 return TOPV
@@ -568,7 +589,8 @@ class IterFlow:
             if all(isinstance(v, Node) for v in vs):
                 out = None
                 for v in vs:
-                    out = vjoin(out, Seq(v.level, v.checked, v.admitted))
+                    adm, _ = self.admitted_here(v, facts)
+                    out = vjoin(out, Seq(v.level, v.checked, adm))
                 return out
             return TOPV
         if isinstance(e, ast.BinOp):
@@ -628,7 +650,7 @@ class IterFlow:
         if isinstance(e, ast.YieldFrom):
             v = self.ev(f, e.value, env, facts, rec, cn)
             if rec and not (isinstance(v, tuple) and v[0] == "gen"):
-                self.problem("S2", f, e, "yield from a value that is not the result of a recursive strategy call")
+                self.problem("S2", f, e, "yield from a value that is not the result of a recursive strategy call", undecided=True)
             return TOPV
         if isinstance(e, ast.UnaryOp):
             v = self.ev(f, e.operand, env, facts, rec, cn)
@@ -818,7 +840,7 @@ class IterFlow:
         s = b.get("children")
         if not isinstance(s, Seq):
             if rec:
-                self.problem("S3", f, e, "the sequence passed to %s is not a tracked node sequence" % callee.qual)
+                self.problem("S3", f, e, "the sequence passed to %s is not a tracked node sequence" % callee.qual, undecided=True)
             return
         adm, why = self.admitted_here(s, facts)
         self.callsite_facts.setdefault(callee, []).append((s.checked, adm))
@@ -881,8 +903,9 @@ class IterFlow:
             if adm:
                 self.ok("S3", f, y, "yielded node within maxlevel (%s)" % why)
             else:
-                self.problem("S3", f, y, "a node is yielded although it is not known to lie within maxlevel: %s" % why)
-            name = val.id if isinstance(val, ast.Name) else None
+                self.problem("S3", f, y, "a node is yielded although it is not known to lie within maxlevel: %s" % why,
+                             undecided=(v.level == "TOP"))
+            name = val.id if isinstance(val, ast.Name) else norm(val)
             if name is not None and ("filter", name, True) in facts:
                 self.ok("S2", f, y, "yield guarded by filter_(%s)" % name)
             else:
@@ -906,4 +929,4 @@ class IterFlow:
             else:
                 self.problem("S2", f, y, "a level group is yielded without restricting it by filter_")
             return
-        self.problem("S2", f, y, "yielded value `%s` is not a tracked node, group or recursive result" % norm(val))
+        self.problem("S2", f, y, "yielded value `%s` is not a tracked node, group or recursive result" % norm(val), undecided=True)
